@@ -316,3 +316,27 @@ def check_disable_interrupts(check, an: Analysis, rule: str):
                        where_fn(callee.fn), 'every way through marks the scope as closed for '
                        'new tasks and withdraws its own signals %s (%d paths)' % (own, n),
                        path=rules.path_lines(bad) if bad else None, analysed=n)
+
+
+def check_child_failure_recorded(check, an: Analysis, rule: str):
+    """whenever a child reports that it failed, its exception is recorded for the scope's
+    report -- whatever state the scope is in (also while it is already closing)"""
+    finished = Callee(an.p.find_method(SCOPE, '__child_finished__'), SCOPE)
+    n, verdict, bad = 0, True, None
+    for path in an.paths(finished):
+        failed = [e for e in path.events if e.kind == 'test'
+                  and e.get('key') == ('truth', 'failed')]
+        if not (failed and failed[0].data.get('value') is True and path.normal):
+            continue
+        n += 1
+        recorded = any(
+            e.kind == 'call' and isinstance(e.node, ast.Call)
+            and isinstance(e.node.func, ast.Attribute) and e.node.func.attr == 'append'
+            and rules.value_text(path, i, e.node.func.value) == 'self._child_failures'
+            for i, e in enumerate(path.events))
+        if not recorded:
+            verdict, bad = False, bad or path
+    check.instance(rule, '__child_finished__:failure-recorded', verdict and n > 0,
+                   where_fn(finished.fn), 'every way through __child_finished__(failed=True) '
+                   'appends the child\'s exception to `_child_failures` (%d paths)' % n,
+                   path=rules.path_lines(bad) if bad else None, analysed=n)
